@@ -941,11 +941,14 @@ impl AstNode for UtxoRef {
         let raw_ref = pair.as_span().as_str()[2..].to_string();
         let (raw_txid, raw_output_ix) = raw_ref.split_once("#").expect("Invalid utxo ref");
 
-        Ok(UtxoRef {
-            txid: hex::decode(raw_txid).expect("Invalid hex txid"),
-            index: raw_output_ix.parse().expect("Invalid output index"),
-            span,
-        })
+        let txid = hex::decode(raw_txid)
+            .map_err(|_| error_at(&pair, format!("invalid hex txid: {raw_txid}")))?;
+
+        let index = raw_output_ix
+            .parse()
+            .map_err(|_| error_at(&pair, format!("invalid output index: {raw_output_ix}")))?;
+
+        Ok(UtxoRef { txid, index, span })
     }
 
     fn span(&self) -> &Span {
